@@ -12,7 +12,7 @@ RULE = ("BFS over sequences of refine(t,L) (t in {0,0.5,1}, L in {1,2}), uniform
 ASSUMPTIONS = ["cells of fixed modules are never cut (C02), so 'every cell' is read over refinable cells", "a square cell may be halved along either side", "griddify does not prescribe depths", "cells flagged fixed carry {F: 1.0} as initial_allocation produces them",
                "coordinates compared with 1e-9*scale tolerance; areas/centroids with relative 1e-9",
                "initial states the Allocation constructor itself rejects (a module whose total area is 0) are outside the space and counted"]
-BOUNDS = {'quick': 'depth 2; 6 operations; grids 3x2 (HALF, k<=3 cells), 2x3 (DEC1, k<=2), elongated 3x2 / 2x3 (cells up to 64.5 x 1 with boundaries 0.5 from their ends, k<=2)', 'thorough': 'depth 3; 8 operations; HALF 3x2 k<=4, DEC1 3x2 k<=3, DEC3 2x3 k<=3, HALF 3x3 k<=3, DEC7 4x1 k<=4, elongated k<=3'}
+BOUNDS = {'quick': 'depth 2; 6 operations; grids 3x2 (HALF, k<=3 cells), 2x3 (DEC1, k<=2), elongated 3x2 / 2x3 (cells up to 64.5 x 1 with boundaries 0.5 from their ends, k<=2)', 'thorough': 'depth 2 with all 8 operations on HALF/DEC1 3x2 k<=3, DEC3 2x3 k<=3, elongated k<=3, P300 k<=3, DEC7 4x1 k<=4; depth 3 (6 operations) on HALF 2x2 and DEC1 2x1 with k<=2'}
 MC_NOTE = ("exploration on the implementation itself: every transition calls the real method on the real object; "
            "'traces_validated_against_impl' = number of complete depth-bounded operation sequences executed")
 CLAIM = ("in every reachable small allocation must_be_refined(t) holds exactly when refine(t) changes the allocation (no livelock of the refine-while-needed loop), and the result of every refine / uniform / griddify transition equals the exact reference model (which cells are split, into which pieces, with which depth)")
